@@ -310,7 +310,8 @@ func Harness_C19_StoresAgree() {
 		var typ *AssertionType
 		if zz.NondetBool(on + ".sequence-forming") {
 			typ = ValidationSetType
-			a = c19vset(zz.NondetRange(on+".sequence", 1, maxSeq), rev, zz.NondetRange(on+".format", 0, 1))
+			// (Database.Add only stores supported formats; validation-set has format 0 only)
+			a = c19vset(zz.NondetRange(on+".sequence", 1, maxSeq), rev, zz.NondetRange(on+".format", 0, ValidationSetType.MaxSupportedFormat()))
 		} else {
 			typ = SnapDeclarationType
 			a = c19decl(ids[zz.NondetRange(on+".identity", 0, 1)], rev, zz.NondetRange(on+".format", 0, zz.Param("c19.formats", 2)))
@@ -328,7 +329,7 @@ func Harness_C19_StoresAgree() {
 			zz.Assert(c19sameOutcome(e1, e2) && g1 == g2, "C19/stores-agree-on-get")
 		}
 	}
-	for mf := 0; mf <= 1; mf++ {
+	for mf := 0; mf <= ValidationSetType.MaxSupportedFormat(); mf++ {
 		for after := -1; after <= maxSeq; after++ {
 			s1, e1 := mem.SequenceMemberAfter(ValidationSetType, []string{"16", "acc", "vs"}, after, mf)
 			s2, e2 := disk.SequenceMemberAfter(ValidationSetType, []string{"16", "acc", "vs"}, after, mf)
